@@ -47,7 +47,8 @@ func (f c06Frame) wire() []byte {
 
 type c06In struct {
 	Pkg     string
-	Entry   string // handshake-handle | handshake-initiate
+	Entry   string // handshake-handle | handshake-initiate | peer-id-address (PeerID, Kind only)
+	Kind    int    `json:",omitempty"` // peer-id-address: what the generator built (see NoPanic.v EPeerIDAddress)
 	OwnType int
 	Token   string
 	PeerID  []byte
@@ -156,6 +157,19 @@ func c06CoqRead(f c06Frame, asReq bool) string {
 }
 
 func c06Run(in c06In) (obs c06Obs, inp string) {
+	if in.Entry == "peer-id-address" {
+		inp = coqApp("EPeerIDAddress", coqN(uint64(in.Kind)))
+		defer func() {
+			if r := recover(); r != nil {
+				obs = c06Obs{Panic: true, Note: fmt.Sprint(r)}
+			}
+		}()
+		if _, err := libp2p.GetEthAddressFromPeerID(core.PeerID(in.PeerID)); err != nil {
+			obs.Res = 1
+			obs.Note = err.Error()
+		}
+		return
+	}
 	var reads, wf []string
 	for k, f := range in.Script {
 		if k >= 2 {
@@ -315,6 +329,44 @@ func c06HostileFrame(r *rand.Rand, honest c06Frame, other c06Frame) c06Frame {
 	return c06Frame{Raw: []byte{0x0a, 0xff, 0xff, 0xff, 0xff, 0x0f}} // length-delimited field announcing 4 GiB
 }
 
+type c06KindID struct {
+	kind int
+	id   []byte
+}
+
+// c06PeerIDs: a peer id of every key type libp2p knows, and malformed ones.
+func c06PeerIDs(r *rand.Rand, secp []byte) []c06KindID {
+	out := []c06KindID{{0, secp}}
+	for _, kt := range [][2]int{{1, libp2pcrypto.Ed25519}, {2, libp2pcrypto.RSA}, {3, libp2pcrypto.ECDSA}} {
+		kind, typ := kt[0], kt[1]
+		_, pub, err := libp2pcrypto.GenerateKeyPairWithReader(typ, 2048, r)
+		if err != nil {
+			panic(err)
+		}
+		id, err := peer.IDFromPublicKey(pub)
+		if err != nil {
+			panic(err)
+		}
+		out = append(out, c06KindID{kind, []byte(id)})
+	}
+	// identity multihash around a secp256k1 protobuf key whose 33 bytes are not a curve point / have a bad prefix
+	for _, mut := range []func(b []byte){
+		func(b []byte) { copy(b[len(b)-32:], bytes.Repeat([]byte{0xff}, 32)) },
+		func(b []byte) { b[len(b)-33] = 0x05 },
+		func(b []byte) { copy(b[len(b)-32:], make([]byte, 32)) },
+	} {
+		b := append([]byte{}, secp...)
+		mut(b)
+		out = append(out, c06KindID{4, b})
+	}
+	// hashed ids: sha2-256 multihash (0x12 0x20 digest)
+	out = append(out, c06KindID{5, append([]byte{0x12, 0x20}, c06Rand(r, 32)...)})
+	out = append(out, c06KindID{6, nil}, c06KindID{6, []byte{}})
+	out = append(out, c06KindID{7, secp[:len(secp)-1]}, c06KindID{7, append(append([]byte{}, secp...), 1)}, c06KindID{7, []byte{0x00, 0x01, 0x07}},
+		c06KindID{7, []byte{0x00, 0x00}}, c06KindID{7, c06Rand(r, 40)})
+	return out
+}
+
 func TestVerifC06(t *testing.T) {
 	e := vfOpen(t, 200)
 	defer e.Close()
@@ -389,6 +441,18 @@ func TestVerifC06(t *testing.T) {
 		in = base("handshake-initiate", honestResp(2), honestReq("bidder"))
 		in.PeerID = id
 		run("garbage-peerid", in)
+	}
+	// transport identities from which no Ethereum address can be derived, behind a correctly signed request
+	for _, k := range c06PeerIDs(r, pid) {
+		run("peerid-kinds", c06In{Pkg: c06Pkg, Entry: "peer-id-address", PeerID: k.id, Kind: k.kind})
+		for _, role := range []string{"bidder", "provider"} {
+			in := base("handshake-handle", honestReq(role), honestResp(2))
+			in.PeerID = k.id
+			run("foreign-identity", in)
+			in = base("handshake-initiate", honestResp(2), honestReq(role))
+			in.PeerID = k.id
+			run("foreign-identity", in)
+		}
 	}
 	for i := 0; i < 3*e.N; i++ {
 		ownType := []int{0, 1, 2, 2, 2, 3, -1, 1 << 30}[r.Intn(8)]
